@@ -318,8 +318,11 @@ def rule_r5(ctx, an: Anchors, gs: GenBranch, ga: GenBranch) -> None:
             recv_ok = any(p[:-1] == ("self",) for p in expand_alias(f, m.path))
             rep.check("C04.R5", recv_ok, f, m.node, "generated value is stored in the requesting context (self)", f"generated value is stored in {'.'.join(m.path)}, not in the requesting context")
         # own table first, then factory table
-        rnodes = [n for n in cfg.live_nodes() if cfg.own_ast(n) is not None and any(isinstance(e, ast.Attribute) and e.attr == an.resource_table and isinstance(e.ctx, ast.Load) for e in iter_own(cfg.own_ast(n))) and n.id not in [s.id for s, _ in g.stores]]
-        fnodes = [n for n in cfg.live_nodes() if cfg.own_ast(n) is not None and any(isinstance(e, ast.Attribute) and e.attr == an.factory_table for e in iter_own(cfg.own_ast(n)))]
+        from .tables import node_reads_table
+
+        sids = [s.id for s, _ in g.stores]
+        rnodes = [n for n in cfg.live_nodes() if n.id not in sids and node_reads_table(a, an, f, cfg, n, an.resource_table)]
+        fnodes = [n for n in cfg.live_nodes() if node_reads_table(a, an, f, cfg, n, an.factory_table) or (cfg.own_ast(n) is not None and any(isinstance(e, ast.Attribute) and e.attr == an.factory_table for e in iter_own(cfg.own_ast(n))))]
         if not rnodes or not fnodes:
             rep.unrecognised("C04.R5", f, f.node, "lookup does not read both tables")
             continue
@@ -385,3 +388,6 @@ def run(ctx) -> None:
         rule_r6(ctx, an, gs, ga)
         rule_stored_before_return(ctx, an, gs, ga, "C04.R5")
     c03.rule_r5(ctx, an, rule="C04.R4")
+    from . import c18
+
+    c18.hit_test_rule(ctx, an, "C04.R5")
